@@ -264,6 +264,16 @@ def scenarios(tier: str) -> tuple[list[C02Scenario], list[C02Scenario], list[C02
     crash.append(C02Scenario(handlers=[dict(id='c1', on='create', script=['temp', 'ok'], backoff=3), dict(id='c2', on='create', script=['ok'], backoff=3)],
                              lifecycle='asap', user=base_user, settings=settings, horizon=40.0, kills=True, rs=True,
                              delays=False, early_user=False, time_dev=False))
+    # 8. one function registered under two ids (stacked @on.create + @on.update), in cycles of more than one step
+    for s2 in (['temp', 'ok'], ['ok']):
+        for lc in ('asap', 'one_by_one'):
+            handlers = [dict(id='sc', on='create', script=['ok'], shared='S'), dict(id='su', on='update', script=['ok'], shared='S'),
+                        dict(id='c2', on='create', script=s2, backoff=3), dict(id='u2', on='update', script=s2, backoff=3)]
+            plain.append(C02Scenario(handlers=handlers, lifecycle=lc, user=base_user + [(30.0, 'spec', 'a', 2)], settings=settings, horizon=60.0,
+                                     delays=False, early_user=False, time_dev=False))
+            handlers2 = [handlers[1], handlers[0], handlers[3], handlers[2]]     # the update declaration registered first
+            plain.append(C02Scenario(handlers=handlers2, lifecycle=lc, user=base_user + [(30.0, 'spec', 'a', 2)], settings=settings, horizon=60.0,
+                                     delays=False, early_user=False, time_dev=False))
     # 6. a resume cycle (one resume handler done, one waiting for its retry) superseded by an essential change
     for lc in ('asap', 'one_by_one'):
         handlers = [dict(id='c1', on='create', script=['ok']), dict(id='r1', on='resume', script=['ok']),
